@@ -27,6 +27,7 @@ import (
 )
 
 type replayCase struct {
+	Base   string `json:"base,omitempty"`
 	Config string `json:"config"`
 	Attr   string `json:"attribute"`
 	Order  string `json:"order"`
@@ -49,6 +50,8 @@ type runner struct {
 	res *engine.Result
 	// only: when set (replay), report only violations of this type / order
 	only *replayCase
+	// variant: the base proxy variant of the current run ("default", or one of baseVariants in the thorough tier)
+	variant string
 }
 
 func (r *runner) violate(c *cfg, a attr, order, typ string, who string, served, fresh *response, names []string) {
@@ -68,9 +71,9 @@ func (r *runner) violate(c *cfg, a attr, order, typ string, who string, served, 
 		detail = firstDiff(canon(served.Res[n]), canon(fresh.Res[n]))
 	}
 	key := fmt.Sprintf("key-completeness:%s:%s", typ, a.Group)
-	desc := fmt.Sprintf("configuration %s, attribute %s, order %s: the %s answer served to proxy %s from the warm shared cache (%s) differs from its own fresh generation after ClearAll in %d resource(s) %v; %s: %s",
+	desc := fmt.Sprintf("configuration %s, base proxy "+r.variant+", attribute %s, order %s: the %s answer served to proxy %s from the warm shared cache (%s) differs from its own fresh generation after ClearAll in %d resource(s) %v; %s: %s",
 		c.Name, a.Name, order, typ, who, served.Info, len(names), clip(names, 4), n, detail)
-	r.res.Violate(key, desc, replayCase{Config: c.Name, Attr: a.Name, Order: order, Type: typ})
+	r.res.Violate(key, desc, replayCase{Base: r.variant, Config: c.Name, Attr: a.Name, Order: order, Type: typ})
 }
 
 func clip(s []string, n int) []string {
@@ -93,7 +96,7 @@ func (r *runner) runConfig(c *cfg, attrs []attr, mine []int) {
 			}
 		}()
 		srv := newServer(bt, c)
-		base := c.baseSpec()
+		base := c.baseSpecOf(r.variant)
 		pA, err := srv.proxy(base)
 		if err != nil {
 			r.res.Infra = fmt.Sprintf("%s: base proxy refused: %v", c.Name, err)
@@ -116,7 +119,7 @@ func (r *runner) runConfig(c *cfg, attrs []attr, mine []int) {
 				return
 			}
 		}
-		r.res.Bounds["base:"+c.Name] = fmt.Sprintf("%s proxy: CDS %d resources, EDS %d names, RDS %d names, SDS %d names", c.Base, len(freshA.By["CDS"].Order), len(subA.EDS), len(subA.RDS), len(subA.SDS))
+		r.res.Bounds["base:"+r.variant+":"+c.Name] = fmt.Sprintf("%s proxy: CDS %d resources, EDS %d names, RDS %d names, SDS %d names", c.Base, len(freshA.By["CDS"].Order), len(subA.EDS), len(subA.RDS), len(subA.SDS))
 		for _, ai := range mine {
 			if r.env.Expired() {
 				r.res.Cap(fmt.Sprintf("deadline in configuration %s", c.Name))
@@ -177,7 +180,7 @@ func (r *runner) cell(srv *server, c *cfg, a attr, base *nodeSpec, pA *model.Pro
 			if sharedA || sharedB {
 				anyShared = true
 				r.res.Count("cells-attribute-matters-and-cache-hit:"+typ, 1)
-				r.res.NontrivialCase(c.Name + "|" + a.Name + "|" + typ)
+				r.res.NontrivialCase(r.variant + "|" + c.Name + "|" + a.Name + "|" + typ)
 			}
 		}
 		if e := warmB.By[typ].Err + coldB.By[typ].Err; e != "" {
@@ -226,27 +229,36 @@ func TestC06a(t *testing.T) {
 	r := &runner{t: t, env: env, res: res}
 
 	cfgs := configurations()
-	attrsOf := map[string][]attr{}
-	for _, c := range cfgs {
-		if _, ok := attrsOf[c.Base]; ok {
-			continue
+	variants := []string{"default"}
+	if env.Thorough() {
+		variants = nil
+		for _, v := range baseVariants {
+			variants = append(variants, v.Name)
 		}
-		as, err := attributesOf(c.baseSpec())
-		if err != nil {
-			res.Infra = err.Error()
-			return
-		}
-		attrsOf[c.Base] = as
 	}
+	attrsOf := map[string][]attr{} // by variant/base type
 	groups := map[string]bool{}
-	for _, as := range attrsOf {
-		for _, a := range as {
-			groups[a.Group] = true
+	for _, v := range variants {
+		for _, c := range cfgs {
+			k := v + "/" + c.Base
+			if _, ok := attrsOf[k]; ok {
+				continue
+			}
+			as, err := attributesOf(c.baseSpecOf(v))
+			if err != nil {
+				res.Infra = err.Error()
+				return
+			}
+			attrsOf[k] = as
+			for _, a := range as {
+				groups[a.Group] = true
+			}
 		}
 	}
 	res.Bounds["configurations"] = len(cfgs)
-	res.Bounds["attribute-edits-sidecar-base"] = len(attrsOf["sidecar"])
-	res.Bounds["attribute-edits-router-base"] = len(attrsOf["router"])
+	res.Bounds["base-proxy-variants"] = strings.Join(variants, ",")
+	res.Bounds["attribute-edits-sidecar-base"] = len(attrsOf["default/sidecar"])
+	res.Bounds["attribute-edits-router-base"] = len(attrsOf["default/router"])
 	res.Bounds["attributes"] = len(groups)
 	res.Bounds["orders"] = 2
 	res.Bounds["types"] = strings.Join(xdsTypes, ",")
@@ -256,14 +268,21 @@ func TestC06a(t *testing.T) {
 		if err := engine.ReadReplay(env.Replay, &rc); err != nil {
 			t.Fatal(err)
 		}
-		r.only = &rc
+		if rc.Base == "" {
+			rc.Base = "default"
+		}
+		r.only, r.variant = &rc, rc.Base
 		for _, c := range cfgs {
 			if c.Name != rc.Config {
 				continue
 			}
-			for i, a := range attrsOf[c.Base] {
+			as, err := attributesOf(c.baseSpecOf(rc.Base))
+			if err != nil {
+				t.Fatal(err)
+			}
+			for i, a := range as {
 				if a.Name == rc.Attr {
-					r.runConfig(c, attrsOf[c.Base], []int{i})
+					r.runConfig(c, as, []int{i})
 					return
 				}
 			}
@@ -272,25 +291,28 @@ func TestC06a(t *testing.T) {
 	}
 
 	var ord int64
-	for _, c := range cfgs {
-		attrs := attrsOf[c.Base]
-		var mine []int
-		for i := range attrs {
-			if env.Mine(ord) {
-				mine = append(mine, i)
+	for _, v := range variants {
+		r.variant = v
+		for _, c := range cfgs {
+			attrs := attrsOf[v+"/"+c.Base]
+			var mine []int
+			for i := range attrs {
+				if env.Mine(ord) {
+					mine = append(mine, i)
+				}
+				ord++
 			}
-			ord++
-		}
-		if len(mine) == 0 {
-			continue
-		}
-		if env.Expired() {
-			res.Cap("deadline before configuration " + c.Name)
-			return
-		}
-		r.runConfig(c, attrs, mine)
-		if res.Infra != "" {
-			return
+			if len(mine) == 0 {
+				continue
+			}
+			if env.Expired() {
+				res.Cap("deadline before configuration " + c.Name)
+				return
+			}
+			r.runConfig(c, attrs, mine)
+			if res.Infra != "" {
+				return
+			}
 		}
 	}
 	res.Bounds["cells"] = ord
